@@ -229,3 +229,18 @@ package ipa
 //@ loop 1 invariant row(challengesInv) == CI && off(challengesInv) == CIo && len(challengesInv) == 8 && len(challenges) == 8
 //@ loop 1 invariant forall j int :: 0 <= j && j < i ==> foldingScalars[j] == ipa_fold8(j, LR, Lo, 8, RR, Ro, 8, T3)
 //@ loop 2 unroll 8
+
+// ---- Pedersen commitment (C05): Commit is the table-driven MSM of banderwagon.MSMPrecomp over the configuration's tables.
+// The table invariant of the configuration (facts shape / mtlen / mtab, and base: table i was built for SRS[i]) is what
+// NewIPASettings -> NewPrecompMSM establishes; it is a precondition here (constructor not under contract: errgroup goroutines).
+//@ func IPAConfig.Commit
+//@ props C05
+//@ view limbs
+//@ prelude frint field group grouplaws msmspec
+//@ requires len(polynomial) <= 256
+//@ requires forall k int :: 0 <= k && k < len(polynomial) ==> I(polynomial[k]) < R_MOD
+//@ fact shape(i int): 0 <= i && i < 256 ==> (ic.PrecompMSM.precompPoints[i].windowSize == 8 || ic.PrecompMSM.precompPoints[i].windowSize == 16) && (ic.PrecompMSM.precompPoints[i].windowSize == 8 ==> len(ic.PrecompMSM.precompPoints[i].windows) == 32) && (ic.PrecompMSM.precompPoints[i].windowSize == 16 ==> len(ic.PrecompMSM.precompPoints[i].windows) == 16) && obj(ic.PrecompMSM.precompPoints[i].windows) >= 1 && allocated(ic.PrecompMSM.precompPoints[i].windows)
+//@ fact mtlen(i int, kk int): 0 <= i && i < 256 && 0 <= kk && kk < len(ic.PrecompMSM.precompPoints[i].windows) ==> len(ic.PrecompMSM.precompPoints[i].windows[kk]) == (ic.PrecompMSM.precompPoints[i].windowSize == 8 ? 128 : 32768) && allocated(ic.PrecompMSM.precompPoints[i].windows[kk])
+//@ fact mtab(i int, kk int, jj int): 0 <= i && i < 256 && 0 <= kk && kk < len(ic.PrecompMSM.precompPoints[i].windows) && 0 <= jj && jj < (ic.PrecompMSM.precompPoints[i].windowSize == 8 ? 128 : 32768) ==> validN(ic.PrecompMSM.precompPoints[i].windows[kk][jj]) && gelN(ic.PrecompMSM.precompPoints[i].windows[kk][jj]) == (ic.PrecompMSM.precompPoints[i].windowSize == 8 ? g_smul((jj + 1) * pow2(8 * kk), ppbase(obj(ic), off(&ic.PrecompMSM) + 5*i)) : g_smul((jj + 1) * pow2(16 * kk), ppbase(obj(ic), off(&ic.PrecompMSM) + 5*i)))
+//@ fact base(i int): 0 <= i && i < 256 ==> len(ic.SRS) == 256 && ppbase(obj(ic), off(&ic.PrecompMSM) + 5*i) == gelP(ic.SRS[i].inner)
+//@ ensures validP(result.inner) && gelP(result.inner) == msum(obj(ic), off(&ic.PrecompMSM), polynomial, len(polynomial))
